@@ -38,6 +38,16 @@ Definition u64_of_i64 (z : Z) : N := Z.to_N (z mod 18446744073709551616)%Z.
 
 Definition len {A} (l : list A) : N := N.of_nat (length l).
 
+(** Byte-string equality that stops at the first difference ([vm_compute] is strict, so
+    [Base.Bytes.bytes_eqb]'s [&&] always walks both strings); equal to [bytes_eqb]
+    (Proofs/EthBase.v: [beq_eq]). *)
+Fixpoint beq (a b : bytes) : bool :=
+  match a, b with
+  | [], [] => true
+  | x :: a', y :: b' => if Byte.eqb x y then beq a' b' else false
+  | _, _ => false
+  end.
+
 (** [common.BytesToHash]: keep the LAST 32 bytes, left-pad with zeros. *)
 Definition fit (n : nat) (b : bytes) : bytes :=
   if (n <? length b)%nat then skipn (length b - n) b else repeat x00 (n - length b) ++ b.
@@ -84,8 +94,8 @@ End KMap.
 
 Definition hkey := (bytes * N)%type.            (* (hash or root, height) *)
 Definition ckey := (N * N)%type.                (* (revision number, revision height) *)
-Definition hkey_eqb (a b : hkey) : bool := bytes_eqb (fst a) (fst b) && (snd a =? snd b).
-Definition ckey_eqb (a b : ckey) : bool := (fst a =? fst b) && (snd a =? snd b).
+Definition hkey_eqb (a b : hkey) : bool := if snd a =? snd b then beq (fst a) (fst b) else false.
+Definition ckey_eqb (a b : ckey) : bool := if snd a =? snd b then fst a =? fst b else false.
 Definition ckey_ltb (a b : ckey) : bool := (fst a <? fst b) || ((fst a =? fst b) && (snd a <? snd b)).
 
 Definition imap := list (hkey * header).
@@ -160,7 +170,7 @@ Definition calc_base_fee (p : header) : outcome N :=
     [big.NewInt(int64(height))]. *)
 Definition calc_difficulty (time : N) (p : header) : Z :=
   (let x := (Z.of_N time - Z.of_N (h_time p)) / 9 in
-   let x := if bytes_eqb (to_hash (h_uncle p)) empty_uncle_hash then 1 - x else 2 - x in
+   let x := if beq (to_hash (h_uncle p)) empty_uncle_hash then 1 - x else 2 - x in
    let x := if x <? -99 then -99 else x in
    let pd := Z.of_N (big (h_diff p)) in
    let x := pd + pd / 2048 * x in
@@ -183,7 +193,7 @@ Section Oracles.
     match parent_of (idx s) h with
     | None => Err
     | Some p =>
-        if negb (bytes_eqb (hash p) (to_hash (h_parent h))) then Err
+        if negb (beq (hash p) (to_hash (h_parent h))) then Err
         else if bt + 15 <? h_time h then Err
         else if h_time h <=? h_time p then Err
         else if negb (verify_gaslimit (h_gaslimit p) (h_gaslimit h)) then Err
@@ -251,7 +261,7 @@ Section Oracles.
   (** Loop 2: walk both branches down until the (raw) parent hashes agree. *)
   Fixpoint walk2 (fuel : nat) (ix : imap) (cur new : header) (ti : N) (acc : list bytes)
     : outcome (header * N * list bytes) :=
-    if bytes_eqb (h_parent cur) (h_parent new) then Ok (new, ti, acc)
+    if beq (h_parent cur) (h_parent new) then Ok (new, ti, acc)
     else match fuel with
          | O => Err
          | S f => match parent_of ix new with
@@ -310,7 +320,7 @@ Section Oracles.
         _ <- check_validity bt s h ;;
         s1 <- prune bt s ;;
         let s2 := store_header s1 h in
-        c3 <- (if negb (bytes_eqb (hash (head s)) (h_parent h))
+        c3 <- (if negb (beq (hash (head s)) (h_parent h))
                then restrict_chain_gen fixed s2 (head s) h else Ok (cons s2)) ;;
         Ok ({| head := h; chain_id := chain_id s; trusting := trusting s;
                idx := idx s2; rmain := rmain s2; cons := c3 |}, cstate_of h)
@@ -344,6 +354,86 @@ Section Oracles.
        idx := [((hash g, h_num g), g)];
        rmain := [((to_hash (h_root g), h_num g), (hash g, h_num g))];
        cons := [((h_rev g, h_num g), c)] |}.
+
+  (** * Specification-level predicates (used by the theorems of Props/C10.v and, on the
+      IMPLEMENTATION's observed states, by the monitors of Model/EthCheck.v).  They do not
+      use the step functions above. *)
+
+  (** EIP-1559 base fee expected from the parent. *)
+  Definition expected_base_fee (p : header) : N :=
+    let target := h_gaslimit p / 2 in
+    let bf := big (h_basefee p) in
+    if h_gasused p =? target then bf
+    else if target <? h_gasused p then bf + N.max 1 (bf * (h_gasused p - target) / target / 8)
+    else bf - bf * (target - h_gasused p) / target / 8.
+
+  (** |parent limit - limit| < parent limit / 1024 and limit >= 5000 *)
+  Definition gaslimit_ok (pg hg : N) : bool :=
+    (Z.abs (Z.of_N pg - Z.of_N hg) <? Z.of_N (pg / 1024))%Z && (5000 <=? hg).
+
+  (** The header rules relative to the parent [p] at block time [bt]. *)
+  Definition rules_b (bt chain : N) (p h : header) : bool :=
+    validate_basic h && (h_time h <=? bt + 15) && (h_time p <? h_time h)
+    && gaslimit_ok (h_gaslimit p) (h_gaslimit h)
+    && (big (h_basefee h) =? expected_base_fee p)
+    && ((chain =? rinkeby)
+        || ((Z.of_N (big (h_diff h)) =? calc_difficulty (h_time h) p)%Z && (len (h_extra h) <=? 32) && ethash_ok h)).
+
+  (** [h] is a rule-abiding child of the stored header its parent hash and number name. *)
+  Definition valid_child_b (bt : N) (s : state) (h : header) : bool :=
+    (1 <=? h_num h) && (h_num h <? two63) &&
+    match iget (to_hash (h_parent h), h_num h - 1) (idx s) with
+    | Some p => beq (hash p) (to_hash (h_parent h)) && rules_b bt (chain_id s) p h
+    | None => false
+    end.
+
+  (** Descending chain of the STORED ancestors of [x] (ends where a parent is missing). *)
+  Fixpoint chain_of (fuel : nat) (ix : imap) (x : header) : list header :=
+    x :: match fuel with
+         | O => []
+         | S f => match parent_of ix x with Some p => chain_of f ix p | None => [] end
+         end.
+  Definition main_chain (s : state) : list header := chain_of (length (idx s)) (idx s) (head s).
+  Definition at_height (l : list header) (k : N) : option header := find (fun a => h_num a =? k) l.
+  Definition last_num (l : list header) (d : N) : N := h_num (last l {| h_parent := []; h_uncle := []; h_coinbase := []; h_root := [];
+     h_tx := []; h_receipt := []; h_bloom := []; h_diff := []; h_rev := 0; h_num := d; h_gaslimit := 0; h_gasused := 0; h_time := 0;
+     h_extra := []; h_mix := []; h_nonce := 0; h_basefee := [] |}).
+
+  (** lowest height of the main chain that is still stored *)
+  Definition base (s : state) : N := last_num (main_chain s) (h_num (head s)).
+
+  (** the pruning step of an update at [bt] is due (earliest consensus state expired) *)
+  Definition prune_due (bt : N) (s : state) : bool :=
+    match cfirst (cons s) with
+    | Some (_, c) => add64 (c_time c) (trusting s) <? bt
+    | None => false
+    end.
+
+  (** "No header of the two branches above the fork point was pruned": walking down from the
+      new header and from the head there is a height, not below [lo], at which both stored
+      branches have headers with the same parent hash. *)
+  Definition meets (s : state) (h : header) (lo : N) : bool :=
+    existsb (fun x => (lo <=? h_num x) &&
+                      match at_height (main_chain s) (h_num x) with
+                      | Some y => beq (h_parent x) (h_parent y)
+                      | None => false
+                      end)
+            (h :: match iget (to_hash (h_parent h), h_num h - 1) (idx s) with
+                  | Some p => chain_of (length (idx s)) (idx s) p
+                  | None => []
+                  end).
+
+  (** no OTHER stored header of the same height carries the same state root *)
+  Definition fresh_root_b (s : state) (h : header) : bool :=
+    forallb (fun e => let a := snd e in
+                      negb ((h_num a =? h_num h) && beq (to_hash (h_root a)) (to_hash (h_root h)))
+                      || beq (hash a) (hash h)) (idx s).
+
+  (** Hypotheses of [no_wedge], evaluated on the state BEFORE the update. *)
+  Definition should_accept (bt : N) (s : state) (h : header) : bool :=
+    active bt s && valid_child_b bt s h && (h_rev h =? h_rev (head s)) && fresh_root_b s h &&
+    (beq (hash (head s)) (h_parent h)
+     || meets s h (if prune_due bt s then base s + 1 else base s)).
 
   (** A history of submissions: (block time, header); rejected ones leave the state
       unchanged.  A panic stops the run. *)
